@@ -145,6 +145,38 @@ func init() {
 		Old: "\t\t\t\"EVAL_CMD\": lua.LString(msg.Command()),\n\t\t})\n\t// Clear", New: "\t\t\t\"EVAL_CMD\": lua.LString(\"eval\"),\n\t\t})\n\t// Clear",
 		Expect: "R18.class-binding", Key: "eval-cmd-setter", Why: "EVALRO scripts run in the read-write class"})
 
+	// ---- R9 ----------------------------------------------------------------
+	mutant(&Mutant{Name: "shrink-rename-away", Props: []string{"C09"}, File: fShrink,
+		Old: "\t\t\tif err := os.Rename(s.opts.AppendFileName+\"-shrink\", s.opts.AppendFileName); err != nil {",
+		New: "\t\t\tif err := os.Rename(s.opts.AppendFileName, s.opts.AppendFileName+\"-bak\"); err != nil {\n\t\t\t\tlog.Fatalf(\"shrink backup fatal operation: %v\", err)\n\t\t\t}\n\t\t\tif err := os.Rename(s.opts.AppendFileName+\"-shrink\", s.opts.AppendFileName); err != nil {",
+		Expect: "R9.live-never-absent", Key: "os.Rename(s.opts.AppendFileName,", Why: "reverse of the single-rename fix"})
+	mutant(&Mutant{Name: "shrinklog-extra-guard", Props: []string{"C09"}, File: fAOF,
+		Old: "\tif s.shrinking {\n\t\tnargs := make", New: "\tif s.shrinking && d != nil {\n\t\tnargs := make",
+		Expect: "R9.shrinklog-capture", Key: "shrinklog-guarded-only-by-flag", Why: "commands logged without details (expiry of hooks via nil d) are not captured"})
+	mutant(&Mutant{Name: "shrinklog-after-live", Props: []string{"C09"}, File: fAOF,
+		Old: "\tif s.shrinking {\n\t\tnargs := make([]string, len(args))\n\t\tcopy(nargs, args)\n\t\ts.shrinklog = append(s.shrinklog, nargs)\n\t}\n\n\tif s.aof != nil {\n\t\ts.aofdirty.Store(true) // prewrite optimization flag",
+		New: "\tif s.aof != nil {\n\t\tif len(args) > 3 && s.shrinking {\n\t\t\tnargs := make([]string, len(args))\n\t\t\tcopy(nargs, args)\n\t\t\ts.shrinklog = append(s.shrinklog, nargs)\n\t\t}\n\t\ts.aofdirty.Store(true) // prewrite optimization flag",
+		Expect: "R9.shrinklog-capture", Key: "", Why: "short commands reach the live log only"})
+	mutant(&Mutant{Name: "shrink-sync-after-rename", Props: []string{"C09"}, File: fShrink,
+		Old: "\t\t\tif _, err := f.Write(aofbuf); err != nil {\n\t\t\t\treturn err\n\t\t\t}\n\t\t\tif err := f.Sync(); err != nil {\n\t\t\t\treturn err\n\t\t\t}\n\t\t\t// we now have",
+		New: "\t\t\tif _, err := f.Write(aofbuf); err != nil {\n\t\t\t\treturn err\n\t\t\t}\n\t\t\t// we now have",
+		Expect: "R9.swap-order", Key: "sync-new-file", Why: "the shrink log is not synced before the swap"})
+	mutant(&Mutant{Name: "shrink-drop-aofsz", Props: []string{"C09"}, File: fShrink,
+		Old: "\t\t\ts.aofsz = int(n)\n", New: "\t\t\t_ = n\n",
+		Expect: "R9.swap-order", Key: "store-aofsz", Why: "the write offset keeps the size of the old file"})
+	mutant(&Mutant{Name: "shrink-no-flush", Props: []string{"C09"}, File: fShrink,
+		Old: "\t\t\t// flush the aof buffer\n\t\t\ts.flushAOF(false)\n", New: "",
+		Expect: "R9.swap-order", Key: "flushAOF", Why: "buffered commands are written to the closed file"})
+	mutant(&Mutant{Name: "shrink-ex-option", Props: []string{"C09"}, File: fShrink,
+		Old: "\t\t\t\t\t\t\t\tvalues = append(values, \"ex\")\n", New: "\t\t\t\t\t\t\t\tvalues = append(values, \"expire\")\n",
+		Expect: "R9.options-agree", Key: "object-emitter/expire", Why: "emitted option is not parsed by SET"})
+	mutant(&Mutant{Name: "shrink-cursor-after-emit", Props: []string{"C09"}, File: fShrink,
+		Old: "\t\t\t\t\t\t\tif count == maxids {\n\t\t\t\t\t\t\t\t// we reached the max number of ids for one batch\n\t\t\t\t\t\t\t\tnextid = o.ID()\n\t\t\t\t\t\t\t\tidsdone = false\n\t\t\t\t\t\t\t\treturn false\n\t\t\t\t\t\t\t}\n",
+		New: "",
+		Edits: []Edit{{fShrink, "\t\t\t\t\t\t\t// increment the object count\n\t\t\t\t\t\t\tcount++\n\t\t\t\t\t\t\treturn true\n",
+			"\t\t\t\t\t\t\t// increment the object count\n\t\t\t\t\t\t\tcount++\n\t\t\t\t\t\t\tif count == maxids {\n\t\t\t\t\t\t\t\tnextid = o.ID()\n\t\t\t\t\t\t\t\tidsdone = false\n\t\t\t\t\t\t\t\treturn false\n\t\t\t\t\t\t\t}\n\t\t\t\t\t\t\treturn true\n"}},
+		Expect: "R9.resume-cursor", Key: "cursor/nextid", Why: "the element that fills a batch is emitted and then used as the inclusive resume point: written twice"})
+
 	// ---- neutral variants --------------------------------------------------
 	mutant(&Mutant{Name: "neutral-rename-write-flag", Props: []string{"C03", "C07", "C15"}, Neutral: true, File: fScripts,
 		Old: "func (s *Server) luaTile38NonAtomic(msg *Message) (resp.Value, error) {\n\tvar write bool\n", New: "func (s *Server) luaTile38NonAtomic(msg *Message) (resp.Value, error) {\n\tvar write bool\n\t_ = \"neutral\"\n",
